@@ -113,7 +113,24 @@ pub fn worker_handle(req: &Value) -> Value {
                             s.insidete, n4(s.multiplier), n4(s.floor_multiplier), s.spaceconds, s.systemconds, s.polygon.as_vec().iter().map(|p| json!([n4(p.x), n4(p.y)])).collect::<Vec<_>>()])).collect::<Vec<_>>(),
                         "walls": d.walls.iter().map(|w| json!([w.name, format!("{:?}", w.bounds), w.space, w.cons, w.location.clone().unwrap_or_else(|| "-".into()),
                             n4(w.tilt), w.nextto.clone().unwrap_or_else(|| "-".into())])).collect::<Vec<_>>(),
-                        "windows": d.windows.iter().map(|w| json!([w.name, w.wall, w.cons, n4(w.x), n4(w.y), n4(w.width), n4(w.height), n4(w.setback)])).collect::<Vec<_>>(),
+                        "windows": d.windows.iter().map(|w| json!([w.name, w.wall, w.cons, n4(w.x), n4(w.y), n4(w.width), n4(w.height), n4(w.setback),
+                            w.coefs.as_ref().map(|c| c.iter().map(|x| n4(*x)).collect::<Vec<_>>()).unwrap_or_default(),
+                            w.overhang.as_ref().map(|o| vec![n4(o.a), n4(o.b), n4(o.depth), n4(o.width), n4(o.angle)]).unwrap_or_default(),
+                            w.left_fin.as_ref().map(|f| vec![n4(f.a), n4(f.b), n4(f.depth), n4(f.height)]).unwrap_or_default(),
+                            w.right_fin.as_ref().map(|f| vec![n4(f.a), n4(f.b), n4(f.depth), n4(f.height)]).unwrap_or_default(),
+                            w.louvres.as_ref().map(|l| json!([l.is_horizontal, n4(l.width), n4(l.distance), n4(l.angle), n4(l.transmisivity), n4(l.reflectivity)])).unwrap_or(json!([]))])).collect::<Vec<_>>(),
+                        "wallgeo": d.walls.iter().filter(|w| w.location.is_none()).map(|w| json!([w.name, n4(w.x), n4(w.y), n4(w.z), n4(w.angle_with_space_north),
+                            w.polygon.as_ref().map(|p| p.as_vec().iter().map(|q| json!([n4(q.x), n4(q.y)])).collect::<Vec<_>>()).unwrap_or_default()])).collect::<Vec<_>>(),
+                        "wincons": d.db.wincons.values().map(|c| json!([c.name, c.glass, c.frame, n4(c.framefrac), n4(c.infcoeff), n4(c.deltau), c.gglshwi.map_or(-1, n4)])).collect::<Vec<_>>(),
+                        "glasses": d.db.glasses.values().map(|g| json!([g.name, n4(g.conductivity), n4(g.g_gln)])).collect::<Vec<_>>(),
+                        "frames": d.db.frames.values().map(|f| json!([f.name, n4(f.conductivity), n4(f.absorptivity), n4(f.width)])).collect::<Vec<_>>(),
+                        "shades": d.shadings.iter().map(|s| json!([s.name,
+                            s.geometry.as_ref().map(|g| vec![n4(g.x), n4(g.y), n4(g.z), n4(g.height), n4(g.width), n4(g.azimuth), n4(g.tilt)]).unwrap_or_default(),
+                            s.vertices.as_ref().map(|v| v.iter().map(|p| json!([n4(p.x), n4(p.y), n4(p.z)])).collect::<Vec<_>>()).unwrap_or_default()])).collect::<Vec<_>>(),
+                        "tbs": d.thermal_bridges.iter().map(|t| json!([t.name, t.length.map_or(-1, n4), n4(t.psi), n4(t.frsi)])).collect::<Vec<_>>(),
+                        "floors": floors_of(&bdl),
+                        "absorptance": d.db.wallcons.values().filter(|c| !c.material.is_empty()).map(|c| json!([c.name, n4(c.absorptance)])).collect::<Vec<_>>(),
+                        "matx": d.db.materials.values().filter_map(|m| m.properties.map(|p| json!([m.name, p.thickness.map_or(-1, n4), p.vapourdiffusivity.map_or(-1, n4)]))).collect::<Vec<_>>(),
                     });
                     json!({"events": [{"ev": "Typed", "src": src, "ok": true, "exp": req["exp"], "got": got}]})
                 }
@@ -159,6 +176,15 @@ pub fn worker_handle(req: &Value) -> Value {
         }
         _ => json!({"events": []}),
     }
+}
+
+/// FLOOR elements are consumed while the spaces are built (bdl::Data keeps no list of them): typed from the blocks
+fn floors_of(bdl: &str) -> Value {
+    use std::convert::TryFrom;
+    let blocks = hulc::bdl::build_blocks(bdl).unwrap_or_default();
+    let n4 = |x: f32| ((x as f64) * 1e4).round() as i64;
+    Value::Array(blocks.into_iter().filter(|b| type_name(&b.btype) == "FLOOR").filter_map(|b| hulc::bdl::Floor::try_from(b).ok())
+        .map(|f| json!([f.name, n4(f.z), n4(f.height), n4(f.multiplier), f.previous])).collect())
 }
 
 pub fn main_bdlparse(args: &Args) {
